@@ -207,10 +207,16 @@ Proof.
         rewrite (nth_error_nth _ _ _ Hd0). cbn.
         rewrite <- (Ka r k (GGot t) c d0 Hk Eg Hc Hd0). cbn. rewrite <- !app_assoc. reflexivity.
       * apply (Ka r' k g c d Hk Hg Hc Hd).
+  - (* GSpawn *)
+    destruct (nth_error (gs s) r) as [g|] eqn:Eg; try discriminate.
+    destruct (Kg _ _ Eg) as [->|[t ->]]; discriminate.
   - (* GDelB *)
     destruct (nth_error (gs s) r) as [g|] eqn:Eg; try discriminate.
     destruct (Kg _ _ Eg) as [->|[t ->]]; discriminate.
   - (* GDelE *)
+    destruct (nth_error (gs s) r) as [g|] eqn:Eg; try discriminate.
+    destruct (Kg _ _ Eg) as [->|[t ->]]; discriminate.
+  - (* GDelBx *)
     destruct (nth_error (gs s) r) as [g|] eqn:Eg; try discriminate.
     destruct (Kg _ _ Eg) as [->|[t ->]]; discriminate.
   - (* GCloseL *)
@@ -364,8 +370,8 @@ Proof.
 Qed.
 
 (* ------------------------------------------------------------------ no fault, from [init], every schedule *)
-Definition live (g : gpc) : Prop := match g with GLoop | GGot _ | GDel | GDeling => True | _ => False end.
-Definition wlocked (g : gpc) : Prop := match g with GIns | GDeling | GClose => True | _ => False end.
+Definition live (g : gpc) : Prop := match g with GLoop | GGot _ | GFail | GDel | GDeling _ => True | _ => False end.
+Definition wlocked (g : gpc) : Prop := match g with GIns | GDeling _ | GClose _ => True | _ => False end.
 
 Record LInv (s : st) : Prop := {
   L_panic : panic s = None;
@@ -376,7 +382,7 @@ Record LInv (s : st) : Prop := {
   L_map : forall k c, In (k, c) (smap s) -> exists g, nth_error (gs s) c = Some g /\ live g /\ k = nth c (keys s) 0;
   L_cl : forall c ch, nth_error (chs s) c = Some ch -> closed ch = true -> nth_error (gs s) c = Some GDone;
   L_hold : forall t sn vis c, sp s = SHold t sn vis c -> exists k, In (k, c) (smap s);
-  L_wg : forall r, writing s = Some r -> nth_error (gs s) r = Some GIns \/ nth_error (gs s) r = Some GDeling
+  L_wg : forall r, writing s = Some r -> nth_error (gs s) r = Some GIns \/ exists d, nth_error (gs s) r = Some (GDeling d)
 }.
 
 Lemma linv_init : forall ks cs cc, LInv (init ks cs cc).
@@ -406,7 +412,7 @@ Ltac gcase a b := destruct (Nat.eq_dec a b) as [<-|Hne];
 
 (** taking the write lock and beginning a map write *)
 Lemma linv_write_begin : forall s s' r g0 p, LInv s -> nth_error (gs s) r = Some g0 ->
-  ~ wlocked g0 -> (live g0 -> live p) -> g0 <> GDone -> wlocked p -> (p = GIns \/ p = GDeling) ->
+  ~ wlocked g0 -> (live g0 -> live p) -> g0 <> GDone -> wlocked p -> (p = GIns \/ exists d, p = GDeling d) ->
   map_write_begin s r p = Some s' -> LInv s'.
 Proof.
   intros s s' r g0 p I Eg Hnw Hlive Hnd Hwp Hp H. destruct I as [Kp Kr Kw Ki Kg Km Kc Kh Kwg].
@@ -424,7 +430,7 @@ Proof.
     + exists p. split; auto. split; auto. apply Hlive. congruence.
     + exists g. auto.
   - intros c ch Hc Hcl. specialize (Kc c ch Hc Hcl). gcase r c; [congruence | exact Kc].
-  - intros r' X. inversion X; subst. erewrite nth_error_upd_same by eassumption. destruct Hp; subst; auto.
+  - intros r' X. inversion X; subst. erewrite nth_error_upd_same by eassumption. destruct Hp as [->|[d ->]]; eauto.
 Qed.
 
 Theorem lock_step_inv : forall l s s', LInv s -> step l s = Some s' -> LInv s'.
@@ -434,13 +440,13 @@ Proof.
   destruct l.
   - (* Commit *)
     destruct (N.of_nat (length (schan s)) <? capS s)%N; try discriminate. inv_some.
-    constructor; cbn; auto; try solve [intros r0 X; cbn in X; try discriminate; specialize (Kwg r0 X); try (destruct (Nat.eq_dec r r0) as [<-|Hne0]; [destruct Kwg; congruence | rewrite nth_error_upd_other by assumption; exact Kwg])].
+    constructor; cbn; auto; try solve [intros r0 X; cbn in X; try discriminate; specialize (Kwg r0 X); try (destruct (Nat.eq_dec r r0) as [<-|Hne0]; [destruct Kwg as [Y|[d0 Y]]; congruence | rewrite nth_error_upd_other by assumption; exact Kwg])].
   - (* SRecv *)
     destruct (sp s) eqn:Es; try discriminate. destruct (schan s) as [|t rest]; try discriminate. inv_some.
-    constructor; cbn; auto; try discriminate; try solve [intros r0 X; cbn in X; try discriminate; specialize (Kwg r0 X); try (destruct (Nat.eq_dec r r0) as [<-|Hne0]; [destruct Kwg; congruence | rewrite nth_error_upd_other by assumption; exact Kwg])].
+    constructor; cbn; auto; try discriminate; try solve [intros r0 X; cbn in X; try discriminate; specialize (Kwg r0 X); try (destruct (Nat.eq_dec r r0) as [<-|Hne0]; [destruct Kwg as [Y|[d0 Y]]; congruence | rewrite nth_error_upd_other by assumption; exact Kwg])].
   - (* SLock *)
     destruct (sp s) as [|t| |] eqn:Es; try discriminate. destruct (lock s) eqn:El; try discriminate. inv_some.
-    constructor; cbn; auto; try discriminate; try solve [intros r0 X; cbn in X; try discriminate; specialize (Kwg r0 X); try (destruct (Nat.eq_dec r r0) as [<-|Hne0]; [destruct Kwg; congruence | rewrite nth_error_upd_other by assumption; exact Kwg])].
+    constructor; cbn; auto; try discriminate; try solve [intros r0 X; cbn in X; try discriminate; specialize (Kwg r0 X); try (destruct (Nat.eq_dec r r0) as [<-|Hne0]; [destruct Kwg as [Y|[d0 Y]]; congruence | rewrite nth_error_upd_other by assumption; exact Kwg])].
     + intros r X. specialize (Kw r X). congruence.
     + intros r g Hg W. specialize (Kg _ _ Hg W). congruence.
   - (* SNext *)
@@ -450,7 +456,7 @@ Proof.
     assert (El : lock s = LkRead) by (apply Ki; unfold iterating; rewrite Es; reflexivity).
     assert (Ew : writing s = None).
     { destruct (writing s) eqn:E; auto. specialize (Kw _ eq_refl). congruence. }
-    rewrite Ew in H. inv_some. constructor; cbn; auto; try solve [intros r0 X; cbn in X; try discriminate; specialize (Kwg r0 X); try (destruct (Nat.eq_dec r r0) as [<-|Hne0]; [destruct Kwg; congruence | rewrite nth_error_upd_other by assumption; exact Kwg])].
+    rewrite Ew in H. inv_some. constructor; cbn; auto; try solve [intros r0 X; cbn in X; try discriminate; specialize (Kwg r0 X); try (destruct (Nat.eq_dec r r0) as [<-|Hne0]; [destruct Kwg as [Y|[d0 Y]]; congruence | rewrite nth_error_upd_other by assumption; exact Kwg])].
     intros t' sn' vis' c' X. inversion X; subst. exists k. apply lookup_In. exact Elk.
   - (* SEnd *)
     destruct (sp s) as [| |t sn vis|] eqn:Es; try discriminate.
@@ -458,7 +464,7 @@ Proof.
     assert (El : lock s = LkRead) by (apply Ki; unfold iterating; rewrite Es; reflexivity).
     assert (Ew : writing s = None).
     { destruct (writing s) eqn:E; auto. specialize (Kw _ eq_refl). congruence. }
-    rewrite Ew in H. inv_some. constructor; cbn; auto; try discriminate; try solve [intros r0 X; cbn in X; try discriminate; specialize (Kwg r0 X); try (destruct (Nat.eq_dec r r0) as [<-|Hne0]; [destruct Kwg; congruence | rewrite nth_error_upd_other by assumption; exact Kwg])].
+    rewrite Ew in H. inv_some. constructor; cbn; auto; try discriminate; try solve [intros r0 X; cbn in X; try discriminate; specialize (Kwg r0 X); try (destruct (Nat.eq_dec r r0) as [<-|Hne0]; [destruct Kwg as [Y|[d0 Y]]; congruence | rewrite nth_error_upd_other by assumption; exact Kwg])].
     + intros r X. congruence.
     + intros r g Hg W. specialize (Kg _ _ Hg W). congruence.
   - (* SSend *)
@@ -468,7 +474,7 @@ Proof.
     { destruct (closed ch) eqn:E; auto. destruct (Kh _ _ _ _ eq_refl) as [k Hin].
       destruct (Km _ _ Hin) as [g [H1 [H2 _]]]. rewrite (Kc _ _ Ec E) in H1. inversion H1; subst. destruct H2. }
     rewrite Hop in H. destruct (N.of_nat (length (q ch)) <? capC s)%N; try discriminate. inv_some.
-    constructor; cbn; auto; try discriminate; try solve [intros r0 X; cbn in X; try discriminate; specialize (Kwg r0 X); try (destruct (Nat.eq_dec r r0) as [<-|Hne0]; [destruct Kwg; congruence | rewrite nth_error_upd_other by assumption; exact Kwg])].
+    constructor; cbn; auto; try discriminate; try solve [intros r0 X; cbn in X; try discriminate; specialize (Kwg r0 X); try (destruct (Nat.eq_dec r r0) as [<-|Hne0]; [destruct Kwg as [Y|[d0 Y]]; congruence | rewrite nth_error_upd_other by assumption; exact Kwg])].
     + intros _. apply Ki. unfold iterating. rewrite Es. reflexivity.
     + intros c' ch' Hc Hcl. gcase c c'; [inversion Hc; subst; discriminate | eauto].
   - (* GInsB *)
@@ -477,7 +483,7 @@ Proof.
   - (* GInsE *)
     destruct (nth_error (gs s) r) as [g|] eqn:Eg; try discriminate. destruct g; try discriminate. inv_some.
     assert (El : lock s = LkWrite r) by (eapply Kg; eauto; exact I).
-    constructor; cbn; auto; try discriminate; try solve [intros r0 X; cbn in X; try discriminate; specialize (Kwg r0 X); try (destruct (Nat.eq_dec r r0) as [<-|Hne0]; [destruct Kwg; congruence | rewrite nth_error_upd_other by assumption; exact Kwg])].
+    constructor; cbn; auto; try discriminate; try solve [intros r0 X; cbn in X; try discriminate; specialize (Kwg r0 X); try (destruct (Nat.eq_dec r r0) as [<-|Hne0]; [destruct Kwg as [Y|[d0 Y]]; congruence | rewrite nth_error_upd_other by assumption; exact Kwg])].
     + intros X. specialize (Ki X). congruence.
     + intros r' g Hg W. gcase r r'; [inversion Hg; subst; destruct W|]. specialize (Kg _ _ Hg W). congruence.
     + intros k c [X|X].
@@ -492,7 +498,7 @@ Proof.
     destruct (nth_error (gs s) r) as [g|] eqn:Eg; try discriminate. destruct g; try discriminate.
     destruct (nth_error (chs s) r) as [ch|] eqn:Ec; try discriminate.
     destruct (q ch) as [|t rest]; try discriminate. inv_some.
-    constructor; cbn; auto; try solve [intros r0 X; cbn in X; try discriminate; specialize (Kwg r0 X); try (destruct (Nat.eq_dec r r0) as [<-|Hne0]; [destruct Kwg; congruence | rewrite nth_error_upd_other by assumption; exact Kwg])].
+    constructor; cbn; auto; try solve [intros r0 X; cbn in X; try discriminate; specialize (Kwg r0 X); try (destruct (Nat.eq_dec r r0) as [<-|Hne0]; [destruct Kwg as [Y|[d0 Y]]; congruence | rewrite nth_error_upd_other by assumption; exact Kwg])].
     + intros r' g Hg W. gcase r r'; [inversion Hg; subst; destruct W | eauto].
     + intros k c Hin. destruct (Km _ _ Hin) as [g [H1 [H2 H3]]]. gcase r c.
       * exists (GGot t). repeat split; auto; try exact I.
@@ -503,25 +509,40 @@ Proof.
   - (* GSend *)
     destruct (nth_error (gs s) r) as [g|] eqn:Eg; try discriminate. destruct g; try discriminate.
     destruct ok; inv_some.
-    + constructor; cbn; auto; try solve [intros r0 X; cbn in X; try discriminate; specialize (Kwg r0 X); try (destruct (Nat.eq_dec r r0) as [<-|Hne0]; [destruct Kwg; congruence | rewrite nth_error_upd_other by assumption; exact Kwg])].
+    + constructor; cbn; auto; try solve [intros r0 X; cbn in X; try discriminate; specialize (Kwg r0 X); try (destruct (Nat.eq_dec r r0) as [<-|Hne0]; [destruct Kwg as [Y|[d0 Y]]; congruence | rewrite nth_error_upd_other by assumption; exact Kwg])].
       * intros r' g Hg W. gcase r r'; [inversion Hg; subst; destruct W | eauto].
       * intros k c Hin. destruct (Km _ _ Hin) as [g [H1 [H2 H3]]]. gcase r c.
         -- exists GLoop. repeat split; auto; try exact I.
         -- exists g. auto.
       * intros c ch' Hc Hcl. specialize (Kc _ _ Hc Hcl). gcase r c; [congruence | exact Kc].
-    + constructor; cbn; auto; try solve [intros r0 X; cbn in X; try discriminate; specialize (Kwg r0 X); try (destruct (Nat.eq_dec r r0) as [<-|Hne0]; [destruct Kwg; congruence | rewrite nth_error_upd_other by assumption; exact Kwg])].
+    + constructor; cbn; auto; try solve [intros r0 X; cbn in X; try discriminate; specialize (Kwg r0 X); try (destruct (Nat.eq_dec r r0) as [<-|Hne0]; [destruct Kwg as [Y|[d0 Y]]; congruence | rewrite nth_error_upd_other by assumption; exact Kwg])].
       * intros r' g Hg W. gcase r r'; [inversion Hg; subst; destruct W | eauto].
       * intros k c Hin. destruct (Km _ _ Hin) as [g [H1 [H2 H3]]]. gcase r c.
-        -- exists GDel. repeat split; auto; try exact I.
+        -- exists GFail. repeat split; auto; try exact I.
         -- exists g. auto.
       * intros c ch' Hc Hcl. specialize (Kc _ _ Hc Hcl). gcase r c; [congruence | exact Kc].
+  - (* GSpawn *)
+    destruct (nth_error (gs s) r) as [g|] eqn:Eg; try discriminate.
+    assert (exists g', (g = GFail /\ g' = GDel \/ g = GClose false /\ g' = GClose true) /\ s' = set_g s r g') as [g' [Hg' ->]].
+    { destruct g as [| | |t| | |d|[|]|]; try discriminate; inv_some; eauto. }
+    constructor; cbn; auto; try solve [intros r0 X; cbn in X; try discriminate; specialize (Kwg r0 X); try (destruct (Nat.eq_dec r r0) as [<-|Hne0]; [destruct Kwg as [Y|[d0 Y]]; congruence | rewrite nth_error_upd_other by assumption; exact Kwg])].
+    + intros r' g0 Hg W. gcase r r'.
+      * inversion Hg; subst. destruct Hg' as [[-> ->]|[-> ->]]; [destruct W | eapply Kg; eauto; exact I].
+      * eauto.
+    + intros k c Hin. destruct (Km _ _ Hin) as [g0 [H1 [H2 H3]]]. gcase r c.
+      * rewrite Eg in H1. inversion H1; subst. destruct Hg' as [[-> ->]|[-> ->]]; [|destruct H2].
+        exists GDel. repeat split; auto; try exact I.
+      * exists g0. auto.
+    + intros c ch' Hc Hcl. specialize (Kc _ _ Hc Hcl). gcase r c; [destruct Hg' as [[-> _]|[-> _]]; congruence | exact Kc].
+    + intros r0 X. specialize (Kwg r0 X). gcase r r0; [|exact Kwg].
+      exfalso. destruct Hg' as [[-> _]|[-> _]]; destruct Kwg as [Y|[d0 Y]]; congruence.
   - (* GDelB *)
     destruct (nth_error (gs s) r) as [g|] eqn:Eg; try discriminate. destruct g; try discriminate.
-    apply (linv_write_begin s s' r GDel GDeling I0 Eg); cbn; auto; try discriminate.
+    apply (linv_write_begin s s' r GDel (GDeling true) I0 Eg); cbn; eauto; try discriminate.
   - (* GDelE *)
-    destruct (nth_error (gs s) r) as [g|] eqn:Eg; try discriminate. destruct g; try discriminate. inv_some.
+    destruct (nth_error (gs s) r) as [g|] eqn:Eg; try discriminate. destruct g as [| | |t| | |d|d'|]; try discriminate. inv_some.
     assert (El : lock s = LkWrite r) by (eapply Kg; eauto; exact I).
-    constructor; cbn; auto; try discriminate; try solve [intros r0 X; cbn in X; try discriminate; specialize (Kwg r0 X); try (destruct (Nat.eq_dec r r0) as [<-|Hne0]; [destruct Kwg; congruence | rewrite nth_error_upd_other by assumption; exact Kwg])].
+    constructor; cbn; auto; try discriminate; try solve [intros r0 X; cbn in X; try discriminate; specialize (Kwg r0 X); try (destruct (Nat.eq_dec r r0) as [<-|Hne0]; [destruct Kwg as [Y|[d0 Y]]; congruence | rewrite nth_error_upd_other by assumption; exact Kwg])].
     + intros r' g Hg W. gcase r r'; [exact El | eauto].
     + intros k c X. apply remove_key_In in X as [X Hk]. destruct (Km _ _ X) as [g [H1 [H2 H3]]]. gcase r c.
       * contradiction.
@@ -529,13 +550,16 @@ Proof.
     + intros c ch Hc Hcl. specialize (Kc c ch Hc Hcl). gcase r c; [congruence | exact Kc].
     + intros t sn vis c Es. exfalso. assert (iterating s = true) by (unfold iterating; rewrite Es; reflexivity).
       specialize (Ki H). congruence.
-  - (* GCloseL *)
+  - (* GDelBx *)
     destruct (nth_error (gs s) r) as [g|] eqn:Eg; try discriminate. destruct g; try discriminate.
+    apply (linv_write_begin s s' r GFail (GDeling false) I0 Eg); cbn; eauto; try discriminate.
+  - (* GCloseL *)
+    destruct (nth_error (gs s) r) as [g|] eqn:Eg; try discriminate. destruct g as [| | |t| | |d|[|]|]; try discriminate.
     destruct (nth_error (chs s) r) as [ch|] eqn:Ec; try discriminate. inv_some.
     assert (El : lock s = LkWrite r) by (eapply Kg; eauto; exact I).
-    constructor; cbn; auto; try discriminate; try solve [intros r0 X; cbn in X; try discriminate; specialize (Kwg r0 X); try (destruct (Nat.eq_dec r r0) as [<-|Hne0]; [destruct Kwg; congruence | rewrite nth_error_upd_other by assumption; exact Kwg])].
+    constructor; cbn; auto; try discriminate; try solve [intros r0 X; cbn in X; try discriminate; specialize (Kwg r0 X); try (destruct (Nat.eq_dec r r0) as [<-|Hne0]; [destruct Kwg as [Y|[d0 Y]]; congruence | rewrite nth_error_upd_other by assumption; exact Kwg])].
     + intros r' X. exfalso. pose proof (Kw _ X) as Y. rewrite El in Y. inversion Y; subst.
-      destruct (Kwg _ X); congruence.
+      destruct (Kwg _ X) as [Z|[d0 Z]]; congruence.
     + intros X. specialize (Ki X). congruence.
     + intros r' g Hg W. gcase r r'; [inversion Hg; subst; destruct W|]. specialize (Kg _ _ Hg W). congruence.
     + intros k c Hin. destruct (Km _ _ Hin) as [g [H1 [H2 H3]]]. gcase r c.
@@ -544,11 +568,11 @@ Proof.
     + intros c ch' Hc Hcl. gcase r c; [reflexivity | eauto].
   - (* GDrain *)
     destruct (nth_error (gs s) r) as [g|] eqn:Eg; try discriminate.
-    destruct (nth_error (chs s) r) as [ch|] eqn:Ec; [|destruct g; discriminate].
-    destruct (q ch) as [|t rest] eqn:Eq; [destruct g; discriminate|].
-    assert (s' = set_chs s (upd r (mkchan rest (closed ch)) (chs s))) by (destruct g; try discriminate; inversion H; reflexivity).
+    destruct (nth_error (chs s) r) as [ch|] eqn:Ec; [|destruct g as [| | |t0| | |[|]|[|]|]; discriminate].
+    destruct (q ch) as [|t rest] eqn:Eq; [destruct g as [| | |t0| | |[|]|[|]|]; discriminate|].
+    assert (s' = set_chs s (upd r (mkchan rest (closed ch)) (chs s))) by (destruct g as [| | |t0| | |[|]|[|]|]; try discriminate; inversion H; reflexivity).
     subst s'.
-    constructor; cbn; auto; try solve [intros r0 X; cbn in X; try discriminate; specialize (Kwg r0 X); try (destruct (Nat.eq_dec r r0) as [<-|Hne0]; [destruct Kwg; congruence | rewrite nth_error_upd_other by assumption; exact Kwg])].
+    constructor; cbn; auto; try solve [intros r0 X; cbn in X; try discriminate; specialize (Kwg r0 X); try (destruct (Nat.eq_dec r r0) as [<-|Hne0]; [destruct Kwg as [Y|[d0 Y]]; congruence | rewrite nth_error_upd_other by assumption; exact Kwg])].
     intros c ch' Hc Hcl. gcase r c.
     + inversion Hc; subst. cbn in Hcl. eauto.
     + eauto.
@@ -568,4 +592,262 @@ Theorem no_fault : forall ks cs cc ls s,
   run_labels (init ks cs cc) ls = Some s -> panic s = None /\ race s = false.
 Proof.
   intros. pose proof (lock_run_inv _ _ _ (linv_init ks cs cc) H) as I. split; [apply (L_panic _ I) | apply (L_race _ I)].
+Qed.
+
+(* ------------------------------------------------------------------ no deadlock (code order of the cleanup) *)
+Record PInv (s : st) : Prop := {
+  P_lw : forall r, lock s = LkWrite r -> exists g, nth_error (gs s) r = Some g /\ wlocked g;
+  P_lr : lock s = LkRead -> iterating s = true;
+  P_lg : length (gs s) = length (keys s);
+  P_lc : length (chs s) = length (keys s);
+  P_cx : forall r g, nth_error (gs s) r = Some g -> g <> GDeling false /\ g <> GClose false
+}.
+
+Lemma pinv_init : forall ks cs cc, PInv (init ks cs cc).
+Proof.
+  intros. constructor; unfold init; cbn; try discriminate; try (rewrite map_length; reflexivity).
+  intros r g H. rewrite nth_error_map in H. destruct (nth_error ks r); inversion H; subst. split; discriminate.
+Qed.
+
+Lemma pinv_write_begin : forall s s' r g0 p, LInv s -> PInv s -> nth_error (gs s) r = Some g0 -> wlocked p ->
+  p <> GDeling false -> p <> GClose false ->
+  map_write_begin s r p = Some s' -> PInv s'.
+Proof.
+  intros s s' r g0 p I P Eg Hw Hp1 Hp2 H. destruct P as [Qw Qr Qg Qc Qx]. unfold map_write_begin in H.
+  destruct (lock s) eqn:El; try discriminate.
+  assert (Ew : writing s = None).
+  { destruct (writing s) eqn:E; auto. pose proof (L_wr _ I _ E). congruence. }
+  rewrite Ew in H. inv_some. constructor; cbn.
+  - intros r' X. inversion X; subst. exists p. erewrite nth_error_upd_same by eassumption. auto.
+  - discriminate.
+  - rewrite length_upd. exact Qg.
+  - exact Qc.
+  - intros r' g Hg. rewrite nth_error_upd in Hg. destruct (Nat.eqb_spec r r').
+    + subst. rewrite Eg in Hg. inversion Hg; subst. auto.
+    + eauto.
+Qed.
+
+Theorem step_pinv : forall l s s', code_order l = true -> LInv s -> PInv s -> step l s = Some s' -> PInv s'.
+Proof.
+  intros l s s' Hco I P H. pose proof P as P0. destruct P as [Qw Qr Qg Qc Qx].
+  unfold step in H. rewrite (L_panic _ I) in H.
+  (* generic pieces *)
+  assert (Hsame : forall s1, lock s1 = lock s -> sp s1 = sp s -> gs s1 = gs s -> chs s1 = chs s \/ length (chs s1) = length (chs s) ->
+                              keys s1 = keys s -> PInv s1).
+  { intros s1 E1 E2 E3 E4 E5. constructor.
+    - rewrite E1, E3. exact Qw.
+    - rewrite E1. unfold iterating. rewrite E2. exact Qr.
+    - rewrite E3, E5. exact Qg.
+    - rewrite E5. destruct E4 as [E4 | E4]; rewrite E4; exact Qc.
+    - rewrite E3. exact Qx. }
+  assert (Hg1 : forall s1 r g0 g1, nth_error (gs s) r = Some g0 -> ~ wlocked g0 -> ~ wlocked g1 ->
+                  lock s1 = lock s -> sp s1 = sp s -> gs s1 = upd r g1 (gs s) -> length (chs s1) = length (chs s) ->
+                  keys s1 = keys s -> PInv s1).
+  { intros s1 r g0 g1 Eg N0 N1 E1 E2 E3 E4 E5. constructor.
+    - rewrite E1, E3. intros r' X. destruct (Qw r' X) as [g [Hg W]]. exists g. split; auto.
+      rewrite nth_error_upd. destruct (Nat.eqb_spec r r'); auto. subst. rewrite Eg in Hg. inversion Hg; subst. contradiction.
+    - rewrite E1. unfold iterating. rewrite E2. exact Qr.
+    - rewrite E3, E5, length_upd. exact Qg.
+    - rewrite E5, E4. exact Qc.
+    - rewrite E3. intros r' g Hg. rewrite nth_error_upd in Hg. destruct (Nat.eqb_spec r r').
+      + subst. rewrite Eg in Hg. inversion Hg; subst. split; intro X; subst; apply N1; exact Logic.I.
+      + eauto. }
+  destruct l; try discriminate Hco.
+  - (* Commit *)
+    destruct (N.of_nat (length (schan s)) <? capS s)%N; try discriminate. inv_some. apply Hsame; auto.
+  - (* SRecv *)
+    destruct (sp s) eqn:Es; try discriminate. destruct (schan s); try discriminate. inv_some.
+    constructor; cbn; auto. intros X. specialize (Qr X). unfold iterating in Qr. rewrite Es in Qr. discriminate.
+  - (* SLock *)
+    destruct (sp s) eqn:Es; try discriminate. destruct (lock s) eqn:El; try discriminate. inv_some.
+    constructor; cbn; auto. discriminate.
+  - (* SNext *)
+    destruct (sp s) as [| |t sn vis|] eqn:Es; try discriminate. destruct (lookup (smap s) k); try discriminate.
+    destruct (memb k vis); try discriminate.
+    assert (Ew : writing s = None).
+    { destruct (writing s) eqn:E; auto. pose proof (L_wr _ I _ E) as X.
+      assert (lock s = LkRead) by (apply (L_it _ I); unfold iterating; rewrite Es; reflexivity). congruence. }
+    rewrite Ew in H. inv_some. constructor; cbn; auto.
+  - (* SEnd *)
+    destruct (sp s) as [| |t sn vis|] eqn:Es; try discriminate. destruct (forallb _ _); try discriminate.
+    assert (Ew : writing s = None).
+    { destruct (writing s) eqn:E; auto. pose proof (L_wr _ I _ E) as X.
+      assert (lock s = LkRead) by (apply (L_it _ I); unfold iterating; rewrite Es; reflexivity). congruence. }
+    rewrite Ew in H. inv_some. constructor; cbn; auto; discriminate.
+  - (* SSend *)
+    destruct (sp s) as [| | |t sn vis c] eqn:Es; try discriminate. destruct (nth_error (chs s) c) as [ch|]; try discriminate.
+    destruct (closed ch); [inversion H; subst; apply Hsame; auto|].
+    destruct (N.of_nat (length (q ch)) <? capC s)%N; try discriminate. inv_some.
+    constructor; cbn; auto. rewrite length_upd. exact Qc.
+  - (* GInsB *)
+    destruct (nth_error (gs s) r) as [g|] eqn:Eg; try discriminate. destruct g; try discriminate.
+    eapply pinv_write_begin; eauto; cbn; auto; discriminate.
+  - (* GInsE *)
+    destruct (nth_error (gs s) r) as [g|] eqn:Eg; try discriminate. destruct g; try discriminate. inv_some.
+    assert (El : lock s = LkWrite r) by (eapply (L_g _ I); eauto; exact Logic.I).
+    constructor; cbn; try discriminate.
+    + rewrite length_upd. exact Qg.
+    + exact Qc.
+    + intros r' g Hg. rewrite nth_error_upd in Hg. destruct (Nat.eqb_spec r r').
+      * subst. rewrite Eg in Hg. inversion Hg; subst. split; discriminate.
+      * eauto.
+  - (* GRecv *)
+    destruct (nth_error (gs s) r) as [g|] eqn:Eg; try discriminate. destruct g; try discriminate.
+    destruct (nth_error (chs s) r) as [ch|]; try discriminate. destruct (q ch); try discriminate. inv_some.
+    eapply (Hg1 _ r GLoop (GGot t)); eauto; cbn; auto. rewrite length_upd. reflexivity.
+  - (* GSend *)
+    destruct (nth_error (gs s) r) as [g|] eqn:Eg; try discriminate. destruct g; try discriminate.
+    destruct ok; inv_some.
+    + eapply (Hg1 _ r (GGot t) GLoop); eauto; cbn; auto.
+    + eapply (Hg1 _ r (GGot t) GFail); eauto; cbn; auto.
+  - (* GSpawn *)
+    destruct (nth_error (gs s) r) as [g|] eqn:Eg; try discriminate.
+    destruct g as [| | |t| | |d|[|]|]; try discriminate; inv_some.
+    + eapply (Hg1 _ r GFail GDel); eauto; cbn; auto.
+    + exfalso. destruct (Qx _ _ Eg) as [_ X]. apply X. reflexivity.
+  - (* GDelB *)
+    destruct (nth_error (gs s) r) as [g|] eqn:Eg; try discriminate. destruct g; try discriminate.
+    eapply pinv_write_begin; eauto; cbn; auto; discriminate.
+  - (* GDelE *)
+    destruct (nth_error (gs s) r) as [g|] eqn:Eg; try discriminate. destruct g as [| | |t| | |d|d'|]; try discriminate. inv_some.
+    assert (Hd : d = true) by (destruct d; auto; destruct (Qx _ _ Eg) as [X _]; exfalso; apply X; reflexivity). subst d.
+    constructor; cbn.
+    + intros r' X. destruct (Qw r' X) as [g [Hg W]]. rewrite nth_error_upd. destruct (Nat.eqb_spec r r').
+      * subst. rewrite Eg. exists (GClose true). split; auto. exact Logic.I.
+      * exists g. auto.
+    + exact Qr.
+    + rewrite length_upd. exact Qg.
+    + exact Qc.
+    + intros r' g Hg. rewrite nth_error_upd in Hg. destruct (Nat.eqb_spec r r').
+      * subst. rewrite Eg in Hg. inversion Hg; subst. split; discriminate.
+      * eauto.
+  - (* GCloseL *)
+    destruct (nth_error (gs s) r) as [g|] eqn:Eg; try discriminate. destruct g as [| | |t| | |d|[|]|]; try discriminate.
+    destruct (nth_error (chs s) r) as [ch|]; try discriminate. inv_some.
+    constructor; cbn; try discriminate.
+    + rewrite length_upd. exact Qg.
+    + rewrite length_upd. exact Qc.
+    + intros r' g Hg. rewrite nth_error_upd in Hg. destruct (Nat.eqb_spec r r').
+      * subst. rewrite Eg in Hg. inversion Hg; subst. split; discriminate.
+      * eauto.
+  - (* GDrain *)
+    destruct (nth_error (gs s) r) as [g|] eqn:Eg; try discriminate.
+    destruct (nth_error (chs s) r) as [ch|] eqn:Ec; [|destruct g as [| | |t0| | |[|]|[|]|]; discriminate].
+    destruct (q ch) as [|t rest] eqn:Eq; [destruct g as [| | |t0| | |[|]|[|]|]; discriminate|].
+    assert (s' = set_chs s (upd r (mkchan rest (closed ch)) (chs s))) by (destruct g as [| | |t0| | |[|]|[|]|]; try discriminate; inversion H; reflexivity).
+    subst s'. apply Hsame; auto. right. cbn. apply length_upd.
+Qed.
+
+Lemma run_lp_inv : forall ls s s', forallb code_order ls = true -> LInv s -> PInv s -> run_labels s ls = Some s' -> LInv s' /\ PInv s'.
+Proof.
+  induction ls as [|l r IH]; intros s s' Hc I P H; cbn in *.
+  - inv_some. auto.
+  - apply andb_prop in Hc as [H1 H2]. destruct (step l s) as [s1|] eqn:E; try discriminate.
+    apply (IH s1 s' H2); [eapply lock_step_inv; eauto | eapply step_pinv; eauto | exact H].
+Qed.
+
+Lemma me_sender : forall s, (enabled SRecv s || enabled SLock s || enabled SEnd s || enabled SSend s) = true -> master_enabled s = true.
+Proof. intros s H. unfold master_enabled. rewrite H. reflexivity. Qed.
+Lemma me_next : forall s k, In k (keys s) -> enabled (SNext k) s = true -> master_enabled s = true.
+Proof.
+  intros s k Hin H. unfold master_enabled.
+  assert (existsb (fun k0 => enabled (SNext k0) s) (keys s) = true) as X by (apply existsb_exists; eauto).
+  rewrite X. rewrite !orb_true_r. reflexivity.
+Qed.
+Lemma me_stream : forall s r, r < length (keys s) ->
+  (enabled (GInsB r) s || enabled (GInsE r) s || enabled (GRecv r) s || enabled (GSpawn r) s
+   || enabled (GDelB r) s || enabled (GDelE r) s || enabled (GCloseL r) s || enabled (GDrain r) s) = true ->
+  master_enabled s = true.
+Proof.
+  intros s r Hr H. unfold master_enabled.
+  match goal with |- _ || existsb ?f ?l = true => assert (existsb f l = true) as X end.
+  { apply existsb_exists. exists r. split; [apply in_seq; lia | exact H]. }
+  rewrite X. apply orb_true_r.
+Qed.
+
+Lemma lookup_some_of_In : forall m k c, In (k, c) m -> exists c', lookup m k = Some c'.
+Proof.
+  induction m as [|[k' c'] r IH]; intros k c H; cbn in *; [destruct H|].
+  destruct (Nat.eqb_spec k' k); eauto. destruct H as [H|H]; [inversion H; congruence | eauto].
+Qed.
+
+(** Deadlock freedom of the master for the code's cleanup order: in every reachable state either the master can
+    take a step by itself, or some replica is inside stream.Send (the environment's turn), or nothing is left to do. *)
+Theorem no_deadlock_inv : forall s, LInv s -> PInv s -> (0 < capC s)%N ->
+  master_enabled s = true \/ in_send s = true \/ quiescent s = true.
+Proof.
+  intros s I P HcC. destruct I as [Kp Kr Kw Ki Kg Km Kc Kh Kwg]. destruct P as [Qw Qr Qg Qc Qx].
+  assert (Hch : forall r, r < length (keys s) -> exists ch, nth_error (chs s) r = Some ch).
+  { intros r Hr. destruct (nth_error (chs s) r) eqn:E; eauto. apply nth_error_None in E. lia. }
+  assert (Hlt : forall r g, nth_error (gs s) r = Some g -> r < length (keys s)).
+  { intros r g H. rewrite <- Qg. apply nth_error_Some. congruence. }
+  assert (Hsend : forall r t, nth_error (gs s) r = Some (GGot t) -> in_send s = true).
+  { intros r t H. unfold in_send. apply existsb_exists. exists (GGot t). split; [eapply nth_error_In; eauto | reflexivity]. }
+  assert (Ewn : (forall r, lock s <> LkWrite r) -> writing s = None).
+  { intros X. destruct (writing s) eqn:E; auto. exfalso. apply (X n). apply Kw. reflexivity. }
+  destruct (lock s) as [| |r] eqn:El.
+  - (* free *)
+    destruct (sp s) as [|t|t sn vis|t sn vis c] eqn:Es;
+      try (exfalso; assert (X : LkFree = LkRead) by (apply Ki; unfold iterating; rewrite Es; reflexivity); discriminate X).
+    + destruct (schan s) as [|t rest] eqn:Eq.
+      * destruct (quiescent s) eqn:Equ; auto. unfold quiescent in Equ. rewrite Es, Eq in Equ.
+        destruct (forallb_false_ex _ _ _ Equ) as [r [Hin Hr]]. apply in_seq in Hin.
+        assert (r < length (keys s)) as Hrk by (rewrite <- Qg; lia).
+        destruct (nth_error (gs s) r) as [g|] eqn:Eg; [|apply nth_error_None in Eg; lia].
+        destruct (Hch r Hrk) as [ch Ech]. rewrite Ech in Hr.
+        assert (Ew : writing s = None) by (apply Ewn; intros; discriminate).
+        destruct g as [| | |t| | |d|d|].
+        -- left. apply (me_stream s r Hrk). unfold enabled, step, map_write_begin. rewrite Kp, Eg, El. reflexivity.
+        -- pose proof (Kg _ _ Eg Logic.I) as X; discriminate X.
+        -- left. apply (me_stream s r Hrk). unfold enabled at 3, step. rewrite Kp, Eg, Ech.
+           destruct (q ch); [discriminate|]. rewrite !orb_true_r. reflexivity.
+        -- right. left. eauto.
+        -- left. apply (me_stream s r Hrk). unfold enabled at 4, step. rewrite Kp, Eg. rewrite !orb_true_r. reflexivity.
+        -- left. apply (me_stream s r Hrk). unfold enabled at 5, step, map_write_begin. rewrite Kp, Eg, El.
+           rewrite !orb_true_r. reflexivity.
+        -- pose proof (Kg _ _ Eg Logic.I) as X; discriminate X.
+        -- pose proof (Kg _ _ Eg Logic.I) as X; discriminate X.
+        -- discriminate.
+      * left. apply me_sender. unfold enabled at 1, step. rewrite Kp, Es, Eq. reflexivity.
+    + left. apply me_sender. unfold enabled at 2, step. rewrite Kp, Es, El. rewrite orb_true_r. reflexivity.
+  - (* read-held: the sender is iterating *)
+    specialize (Qr eq_refl). unfold iterating in Qr.
+    assert (Ew : writing s = None) by (apply Ewn; intros; discriminate).
+    destruct (sp s) as [|t|t sn vis|t sn vis c] eqn:Es; try discriminate.
+    + destruct (forallb (fun e => negb (memb (fst e) sn) || memb (fst e) vis) (smap s)) eqn:Ef.
+      * left. apply me_sender. unfold enabled at 3, step. rewrite Kp, Es, Ef, Ew. rewrite !orb_true_r. reflexivity.
+      * destruct (forallb_false_ex _ _ _ Ef) as [[k c] [Hin E]]. cbn in E. apply orb_false_elim in E as [_ E].
+        destruct (Km _ _ Hin) as [g [H1 [_ H3]]]. destruct (lookup_some_of_In _ _ _ Hin) as [c' Hl].
+        left. apply (me_next s k).
+        -- rewrite H3. apply nth_In. eapply Hlt; eauto.
+        -- unfold enabled, step. rewrite Kp, Es, Hl, E, Ew. reflexivity.
+    + destruct (Kh _ _ _ _ eq_refl) as [k Hin]. destruct (Km _ _ Hin) as [g [Hg [Hlive _]]].
+      pose proof (Hlt _ _ Hg) as Hc. destruct (Hch c Hc) as [ch Ech].
+      assert (Hop : closed ch = false).
+      { destruct (closed ch) eqn:E; auto. rewrite (Kc _ _ Ech E) in Hg. inversion Hg; subst. destruct Hlive. }
+      destruct (N.of_nat (length (q ch)) <? capC s)%N eqn:Ecap.
+      * left. apply me_sender. unfold enabled at 4, step. rewrite Kp, Es, Ech, Hop, Ecap. rewrite !orb_true_r. reflexivity.
+      * apply N.ltb_ge in Ecap. destruct (q ch) as [|t0 rest] eqn:Eq; [cbn in Ecap; lia|].
+        destruct g as [| | |t1| | |d|d|]; try (destruct Hlive).
+        -- left. apply (me_stream s c Hc). unfold enabled at 3, step. rewrite Kp, Hg, Ech, Eq. rewrite !orb_true_r. reflexivity.
+        -- right. left. eauto.
+        -- left. apply (me_stream s c Hc). unfold enabled at 4, step. rewrite Kp, Hg. rewrite !orb_true_r. reflexivity.
+        -- left. apply (me_stream s c Hc). unfold enabled at 8, step. rewrite Kp, Hg, Ech, Eq. rewrite !orb_true_r. reflexivity.
+        -- pose proof (Kg _ _ Hg Logic.I) as X; discriminate X.
+  - (* write-held by stream r *)
+    destruct (Qw r eq_refl) as [g [Hg W]]. pose proof (Hlt _ _ Hg) as Hr. destruct (Hch r Hr) as [ch Ech].
+    left. apply (me_stream s r Hr). destruct g as [| | |t| | |d|d|]; try (destruct W).
+    + unfold enabled at 2, step. rewrite Kp, Hg. rewrite !orb_true_r. reflexivity.
+    + unfold enabled at 6, step. rewrite Kp, Hg. rewrite !orb_true_r. reflexivity.
+    + destruct d; [|destruct (Qx _ _ Hg) as [_ X]; exfalso; apply X; reflexivity].
+      unfold enabled at 7, step. rewrite Kp, Hg, Ech. rewrite !orb_true_r. reflexivity.
+Qed.
+
+Theorem no_deadlock : forall ks cs cc ls s, (0 < cc)%N -> forallb code_order ls = true ->
+  run_labels (init ks cs cc) ls = Some s ->
+  master_enabled s = true \/ in_send s = true \/ quiescent s = true.
+Proof.
+  intros ks cs cc ls s Hcc Hco Hr.
+  destruct (run_lp_inv _ _ _ Hco (linv_init ks cs cc) (pinv_init ks cs cc) Hr) as [I P].
+  apply no_deadlock_inv; auto. destruct (run_static _ _ _ Hr) as (_ & _ & E). rewrite E. exact Hcc.
 Qed.
